@@ -93,21 +93,22 @@ def build(read):
             break
         f = f[:m.start()] + f"loop {{\n let {m.group(1)} = match self.scanner.peek_char() {{ Some(__x) => __x, None => break }};" + f[m.end():]
         n += 1
-    if n != 2:
-        raise Undecided(f"skip_whitespace_and_comments: expected two `while let` loops, found {n}")
-    b.edits.append("D5: skip_whitespace_and_comments: 2x `while let Some(c) = self.scanner.peek_char() {` -> `loop { let c = match .. { Some(__x) => __x, None => break };` (Rust's own desugaring)")
+    if n < 1:
+        raise Undecided(f"skip_whitespace_and_comments: expected `while let` loops, found {n}")
+    b.edits.append(str(n) + "x `while let Some(c) = self.scanner.peek_char() {` -> `loop { let c = match .. { Some(__x) => __x, None => break };` (D5: Rust's own desugaring)")
     f, k = re.subn(r"\b(\w+)\.is_ascii_whitespace\(\)", r"char_is_ascii_whitespace(\1)", f)
     b.edits.append(f"D5: {k}x `c.is_ascii_whitespace()` -> char_is_ascii_whitespace(c) (assumed std contract)")
     hdr, body = extract.fn_header_body(f)
     kinds = [k for k, _, _ in extract.find_loops(body)]
-    if kinds != ["loop", "loop"]:
-        raise Undecided(f"skip_whitespace_and_comments: expected loops [loop, loop], found {kinds}")
+    if kinds not in (["loop", "loop"], ["loop", "while"]):
+        raise Undecided(f"skip_whitespace_and_comments: expected an outer loop and the comment loop, found {kinds}")
     loops = {
         1: {"header": """            invariant
                 self.scanner.text() == old(self).scanner.text(), self.scanner.wf(),
                 skip_end(old(self).scanner.text(), old(self).scanner.pos()) == skip_end(self.scanner.text(), self.scanner.pos()), // [C09:blanks_and_comments_to_the_end_of_the_line_are_skipped_and_a_newline_or_any_other_character_stops_the_skip]
             ensures
-                self.scanner.pos() == self.scanner.text().len(),"""},
+                self.scanner.pos() == self.scanner.text().len(),
+            decreases self.scanner.text().len() - self.scanner.pos(), // [C03:skipping_blanks_and_comments_terminates_every_iteration_consumes_a_character]"""},
         2: {"before": "let ghost c0 = self.scanner.pos();\n                proof { lemma_line_end(self.scanner.text(), c0); }",
             "header": """                    invariant
                         self.scanner.text() == old(self).scanner.text(), self.scanner.wf(),
@@ -115,10 +116,11 @@ def build(read):
                         skip_end(old(self).scanner.text(), old(self).scanner.pos()) == skip_end(self.scanner.text(), c0),
                         c0 < self.scanner.text().len() && self.scanner.text()[c0] == '#',
                     ensures
-                        self.scanner.pos() == line_end(self.scanner.text(), c0),""",
+                        self.scanner.pos() == line_end(self.scanner.text(), c0),
+                    decreases self.scanner.text().len() - self.scanner.pos(), // [C03:skipping_a_comment_terminates_also_at_the_end_of_the_input]""",
             "after": "proof { assert(line_end(self.scanner.text(), c0) > c0); }"},
     }
-    f = extract.annotate_fn(hdr + body, spec=SPEC, attrs="#[verifier::exec_allows_no_decreases_clause]\n#[verifier::loop_isolation(false)]\n#[verifier::allow_complex_invariants]", loops=loops)
+    f = extract.annotate_fn(hdr + body, spec=SPEC, attrs="#[verifier::loop_isolation(false)]\n#[verifier::allow_complex_invariants]", loops=loops)
     b.text = assemble([
         "// GENERATED on every run by /verif/verus/lex_skip.py from /repo's working tree - do not edit",
         MODEL,
